@@ -664,7 +664,7 @@ pub fn run(sim: &Sim, prop: &str, tier: Tier) -> Outcome {
     // swarm: how often a registry operation is followed by a reveal step
     let reveal_pct = sim.pick(&[100u32, 100, 60, 25]);
     // swarm: a large handler table built up front ("any number of handlers")
-    let bulk = if sim.chance(4) { sim.pick(&[17u32, 33, 40, 70]) } else { 0 };
+    let bulk = if sim.chance(4) { sim.pick(&[17u32, 33, 40, 70, 130, 140, 260]) } else { 0 };
     let mut pending_reveal = false;
     let mut id_reused = false;
     let mut seen_own: BTreeSet<u32> = BTreeSet::new();
@@ -673,7 +673,7 @@ pub fn run(sim: &Sim, prop: &str, tier: Tier) -> Outcome {
     // swarm: where the capture-all handlers of a large table sit (anywhere / nowhere / everywhere /
     // only from some table position on - e.g. all of them behind the 32nd or 64th entry)
     let bulk_policy = if bulk > 0 { sim.draw(4) } else { 0 };
-    let bulk_from = if bulk_policy == 3 { sim.pick(&[32u32, 16, 33, 64, 8]) } else { 0 };
+    let bulk_from = if bulk_policy == 3 { sim.pick(&[32u32, 16, 33, 64, 8, 128, 129]) } else { 0 };
     for bi in 0..bulk {
         let capture_all = match bulk_policy {
             0 => sim.chance(40),
@@ -829,8 +829,15 @@ pub fn run(sim: &Sim, prop: &str, tier: Tier) -> Outcome {
             1 => {
                 let choice = sim.draw(10);
                 let id = if choice < 6 && !model.live.is_empty() {
-                    // a live id (any position in the table)
-                    live_by_token(&model)[sim.draw(model.live.len() as u32) as usize].1
+                    // a live id (any position in the table; sometimes one of the handlers
+                    // registered last but not the very last: a hole just below the top)
+                    let lv = live_by_token(&model);
+                    if lv.len() >= 3 && sim.chance(20) {
+                        let back = 2 + sim.draw((lv.len() as u32 - 2).min(6)) as usize;
+                        lv[lv.len() - back].1
+                    } else {
+                        lv[sim.draw(lv.len() as u32) as usize].1
+                    }
                 } else if choice < 8 && !model.removed_ids.is_empty() {
                     model.removed_ids[sim.draw(model.removed_ids.len() as u32) as usize]
                 } else {
